@@ -10,6 +10,7 @@
 * PATENTS file, you can obtain it at https://www.aomedia.org/license/patent-license.
 */
 
+#include "EbVerifHooks.h"
 #include "EbDefinitions.h"
 #include "EbPictureBufferDesc.h"
 
@@ -1089,7 +1090,11 @@ void svt_setup_motion_field(EbDecHandle *dec_handle, DecThreadCtxt *thread_ctxt)
         volatile uint32_t *num_threads_header = &dec_mt_frame_data->num_threads_header;
         while (*num_threads_header != dec_handle->dec_config.threads &&
                (EB_FALSE == dec_mt_frame_data->end_flag))
+#ifdef SVT_AV1_VERIF
+            SVT_VERIF_SPIN();
+#else
             ;
+#endif
     }
 }
 
